@@ -1,6 +1,7 @@
 package props
 
 import (
+	"encoding/json"
 	"bytes"
 	"context"
 	"errors"
@@ -281,7 +282,44 @@ func c05(env *core.Env, unify bool) {
 			outer = tr
 		}
 	}
+	// A registry between the client and the library's server that has a page limit
+	// of its own: it cuts a longer page down and says where to go on with a Link
+	// header, as the distribution specification lets it.
+	ownLimit := 0
+	if outer != nil && what != "Referrers" && c.Bool("registry-own-limit", 1, 4) {
+		ownLimit = c.Range("registry-own-limit.n", 1, 3)
+		outer.Mutate = func(req *http.Request, resp *simnet.Response) {
+			if resp.Status != 200 {
+				return
+			}
+			var doc map[string]json.RawMessage
+			if json.Unmarshal(resp.Body, &doc) != nil {
+				return
+			}
+			key := "tags"
+			if _, ok := doc["repositories"]; ok {
+				key = "repositories"
+			}
+			var items []string
+			if json.Unmarshal(doc[key], &items) != nil || len(items) <= ownLimit {
+				return
+			}
+			env.Fault("registry-cuts-page-to-own-limit")
+			items = items[:ownLimit]
+			doc[key], _ = json.Marshal(items)
+			resp.Body, _ = json.Marshal(doc)
+			resp.DeclaredLen = int64(len(resp.Body))
+			resp.Header.Set("Content-Length", fmt.Sprint(len(resp.Body)))
+			u := *req.URL
+			q := u.Query()
+			q.Set("last", items[len(items)-1])
+			u.RawQuery = q.Encode()
+			resp.Header.Set("Link", fmt.Sprintf("<%s>; rel=\"next\"", u.RequestURI()))
+		}
+	}
 	if faultKind == "transport" {
+		limitMutate := outer.Mutate
+		_ = limitMutate
 		tfault := []string{"drop-response", "status-500", "bad-json", "truncated-body", "drop-request"}[c.Int("tfault", 5)]
 		isList := func(req *http.Request) bool {
 			return strings.HasSuffix(req.URL.Path, "/_catalog") || strings.HasSuffix(req.URL.Path, "/tags/list") || strings.Contains(req.URL.Path, "/referrers/")
@@ -309,6 +347,9 @@ func c05(env *core.Env, unify bool) {
 		}
 		page2 := 0
 		outer.Mutate = func(req *http.Request, resp *simnet.Response) {
+			if limitMutate != nil {
+				limitMutate(req, resp)
+			}
 			if !isList(req) {
 				return
 			}
@@ -481,9 +522,13 @@ func c05(env *core.Env, unify bool) {
 		}
 		// wrappers outside the hop may filter items away, so the number of pages is
 		// bounded by what the backends hold, not by what the caller finally sees
-		budget := (len(backendItems)+pageSize-1)/pageSize + 2
+		per := pageSize
+		if ownLimit > 0 && ownLimit < per {
+			per = ownLimit
+		}
+		budget := (len(backendItems)+per-1)/per + 2
 		if nreq > budget {
-			env.Failf(class("too-many-requests"), "%s needed %d requests for at most %d items with page size %d (budget %d)", op, nreq, len(backendItems), pageSize, budget)
+			env.Failf(class("too-many-requests"), "%s needed %d requests for at most %d items with page size %d (budget %d)", op, nreq, len(backendItems), per, budget)
 		}
 	}
 	// One sequence value iterated again is one more iteration: complete or an
